@@ -754,7 +754,11 @@ def _derive_desc(d, base, ix):
     sel = (lambda seq: [seq[ix]]) if isinstance(ix, int) else (lambda seq: seq[slice(*ix)] if isinstance(ix, tuple) else [seq[i] for i in ix])
     if d["k"] == "D":
         return dict(k="D", grid=d["grid"], rows=[[q(fac * F(v)) for v in r] for r in sel(d["rows"])])
-    return dict(k="I", obs=[[l, g, [q(fac * F(v)) for v in vs]] for l, g, vs in sel(d["obs"])])
+    obs = d["obs"]
+    if d.get("aord"):      # selection walks the labels in the order of the *argvals* dictionary
+        by = {o[0]: o for o in obs}
+        obs = [by[l] for l in d["aord"]]
+    return dict(k="I", obs=[[l, g, [q(fac * F(v)) for v in vs]] for l, g, vs in sel(obs)])
 
 
 def derived_cases(rng: Rng, n):
